@@ -327,7 +327,7 @@ fn trees_part(ctx: &Ctx, res: &mut PartResult, max_depth: usize, filters: &[Filt
             }
             for (ti, tree) in trees.iter().enumerate() {
                 if ti % 256 == 0 && ctx.over_budget() {
-                    res.cap_hit = Some("wall budget".into());
+                    res.cap_hit = Some("budget (cpu time of the part)".into());
                     res.exhaustive = false;
                     break;
                 }
